@@ -396,6 +396,61 @@ func propC17(c *Ctx) {
 		})
 	}
 	c.Check("R17.3", "decode/non-hex-is-error", dec.Pos(), okErr, "a byte outside the three ranges returns a non-nil error and contributes no digit")
+	// the value folded in for a digit is its numeric value: proven within
+	// [0, 15] on every incoming edge from the range tests that guard it (byte
+	// arithmetic wraps: `c - 'a' + 10` for an upper-case digit is 234…)
+	{
+		p := newBProver(w, dec)
+		nFold := 0
+		allInstrs(dec, func(in ssa.Instruction) {
+			or, ok := in.(*ssa.BinOp)
+			if !ok || (or.Op != token.OR && or.Op != token.ADD) {
+				return
+			}
+			isShifted := func(v ssa.Value) bool {
+				b, ok := v.(*ssa.BinOp)
+				if !ok {
+					return false
+				}
+				k, okc := constInt(b.Y)
+				return okc && ((b.Op == token.SHL && k == 4) || (b.Op == token.MUL && k == 16))
+			}
+			var nib ssa.Value
+			switch {
+			case isShifted(or.X):
+				nib = or.Y
+			case isShifted(or.Y):
+				nib = or.X
+			default:
+				return
+			}
+			nFold++
+			good, where := true, ""
+			ph, isPhi := nib.(*ssa.Phi)
+			if !isPhi {
+				b := or.Block()
+				good = p.proveAt(func(at *ssa.BasicBlock) lin { return p.val(nib, at) }, b) &&
+					p.proveAt(func(at *ssa.BasicBlock) lin { return konst(15).sub(p.val(nib, at)) }, b)
+			} else {
+				for i, e := range ph.Edges {
+					if k, isC := e.(*ssa.Const); isC && k.Value != nil {
+						if n, ok := constInt(e); ok && n >= 0 && n <= 15 {
+							// the declared zero value: reaches the fold only if no arm assigned (then an error is returned, R17.3)
+							continue
+						}
+					}
+					pred := ph.Block().Preds[i]
+					facts := p.edgeFacts(pred, ph.Block())
+					v := p.val(e, pred)
+					if !(p.prove(v, facts, 0) && p.prove(konst(15).sub(v), facts, 0)) {
+						good = false
+						where = c.W.Pos(instrPos(terminator(pred)))
+					}
+				}
+			}
+			c.Check("R17.3", fmt.Sprintf("decode/digit-value#%d-in-0..15", nFold), or.Pos(), good, "the value folded in for a digit is proven within [0, 15] from the range test of its arm "+where)
+		})
+	}
 
 	// ---- R17.4 -----------------------------------------------------------
 	c.Rule("R17.4", "every digit of a quantity is examined and a quantity that does not fit 64 bits is an error", 2)
@@ -454,10 +509,14 @@ func propC17(c *Ctx) {
 		detail := "hex.Decode call not found"
 		if payload != nil {
 			detail = ""
+			pf := newPathFacts(um)
 			for _, r := range returnsOf(um) {
 				v := returnValues(r)[0]
 				if definitelyNonNilError(v, nil) {
 					continue
+				}
+				if st := pf.At(r); st == nil || st.knownNonNil(v) {
+					continue // `return err` on the arm where err was tested non-nil
 				}
 				// memory version of *hb at this return
 				b := r.Block()
